@@ -7,6 +7,8 @@ KA_quick == {<<"RDMs", "RDMs", "Dataset">>, <<"Dataset", "TemporalDataset", "Res
 KA_all == KA_quick \cup
           {<<"TemporalDataset", "TemporalDataset", "RDMs">>, <<"Result", "Result", "Dataset">>,
            <<"ModelWeighted", "ModelSelect", "ModelFixed">>, <<"ModelInterpolate", "Dataset", "Dataset">>}
-AllModes == {"path", "fresh", "kept"}
-NoKept == {"path", "fresh"}
+AllModes == {"path", "pathlib", "fresh", "kept"}
+NoKept == {"path", "pathlib", "fresh"}
+Names == {"path", "pathlib"}
+PathFresh == {"path", "fresh"}
 =============================================================================
